@@ -43,6 +43,7 @@ EXPECTED_PROBES = {
 VARIANTS = ("file", "close", "timeout", "pipe", "bytesio", "oserror")
 OSERROR_ENDS = ("reset", "ebadf", "ehostunreach", "enotconn")
 
+LONG_RUN_EVERY = 199  # one wire in 401 starts with about 1100 tiny frames (accepted or rejected)
 
 def generate(seed: int, tier: str = "quick") -> dict:
     r_cfg = core.stream(seed, "config")
@@ -77,6 +78,26 @@ def generate(seed: int, tier: str = "quick") -> dict:
         long_wire = True
         cfg["bufsize_floor"] = 64  # a 12 KiB frame through a 1-byte receive buffer costs minutes, and shows nothing new
         pre.hit("big_frame_wires")
+    if not clean and r_cfg.random() < 0.08:
+        from sim import device  # pylint: disable=import-outside-toplevel
+
+        qd, qnote = device.nmea_quoted_in_rejection(r_dev)
+        frames.insert(r_cfg.randrange(len(frames) + 1), {"kind": "nmea", "hex": qd.hex(), "faults": [], "note": qnote})
+        pre.hit("rejection_text_quotes_utf8")
+    if seed % LONG_RUN_EVERY == LONG_RUN_EVERY - 1:
+        # about 1100 tiny frames of one or two kinds (accepted or rejected) in front of the others
+        from sim import device  # pylint: disable=import-outside-toplevel
+
+        run, style = device.long_run(r_dev, n=1100, styles=("bad_ubx", "bad_nmea", "rtcm_bad", "bad_ubx", "bad_nmea", "alternate", "ubx", "nmea", "unknown_hdr"))
+        frames = [{"kind": k, "hex": b.hex(), "faults": [], "note": note} for k, b, note in run] + frames[:2]
+        clean = clean and style in ("nmea", "ubx")
+        if style.startswith("bad") or style == "rtcm_bad":
+            # the point of these wires is the rejection path: the frames must reach their parser
+            cfg["parsing"], cfg["protfilter"], cfg["validate"] = True, 7, 1
+        long_wire = True
+        cfg["bufsize_floor"] = 64
+        pre.hit("long_run_wires")
+        pre.hit("long_run:" + style)
     # keep full enumeration affordable: drop trailing frames until the wire is <= 400 bytes
     if not long_wire:
         while len(frames) > 1 and len(link.wire_of(frames)) > FULL_ENUM_MAX:
@@ -91,6 +112,10 @@ def generate(seed: int, tier: str = "quick") -> dict:
         "host_delay": r_sch.choice((0.0, 0.001)),
     }
     cfg["bufsize"] = r_sch.choice(sched.BUFSIZES)
+    if r_sch.random() < 0.2:
+        cfg["writes"] = sorted({r_sch.randrange(1, 5) for _ in range(r_sch.randrange(1, 3))})  # polls sent between reads (socket transports)
+    if r_sch.random() < 0.2:
+        cfg["handler"] = False  # ERR_LOG reports go to the logger
     if cfg.pop("bufsize_floor", None):
         cfg["bufsize"] = r_sch.choice((64, 1024, 4096))
     if wire_len <= FULL_ENUM_MAX:
@@ -148,7 +173,11 @@ def _base(scn, wire, variant):
         # k = len(S) is a cut position too: a *protocol* error escaping with errors ignored or logged is
         # this property's business ("ends without raising"); a foreign class is C08's and skipped
         return ("PROTO_RAISED", out.exc)
-    if out.hang or out.exc:
+    if out.exc and not out.hang:
+        # "ends without raising" holds for k = len(S) as for every other k, whatever the class: the clause
+        # carries class and origin so that a listed finding (known_findings.json) is told from a new one
+        return ("FOREIGN_RAISED", out.exc, out.exc_where)
+    if out.hang:
         return None
     offs = embed_offsets(wire, out.raws())
     ends = [o + len(r) for o, r in zip(offs, out.raws())] if offs is not None else None
@@ -198,6 +227,8 @@ def execute(scn):
         return None
     if base[0] == "PROTO_RAISED":
         return ("cut_run_raises", f"k={len(wire)} (uncut) {variant}: {base[1]}")
+    if base[0] == "FOREIGN_RAISED":
+        return (f"uncut_run_raises|{base[1][0].rsplit(".", 1)[-1]}@{base[2]}", f"k={len(wire)} (uncut) {variant}: {base[1]}")
     if scn.get("clean") and "deliverable_ends" not in scn:
         scn = dict(scn, deliverable_ends=deliverable_ends(scn))
     ks = [scn["cut"]] if scn.get("cut") is not None else range(len(wire) + 1)
@@ -301,6 +332,15 @@ def run_unit(unit) -> UnitResult:
                 bad = {key: scn[key] for key in ("seed", "config", "frames", "socket", "clean")}
                 bad["variant"], bad["cut"] = variant, len(wire)
                 bad["clause"], bad["detail"] = "cut_run_raises", f"k={len(wire)} (uncut) {variant}: {base[1]}"
+                res.violations.append(bad)
+            continue
+        if base[0] == "FOREIGN_RAISED":
+            res.skipped_base_failed += 1  # no reference to compare the cut runs with
+            if not found:
+                found = True
+                bad = {key: scn[key] for key in ("seed", "config", "frames", "socket", "clean")}
+                bad["variant"], bad["cut"] = variant, len(wire)
+                bad["clause"], bad["detail"] = f"uncut_run_raises|{base[1][0].rsplit(".", 1)[-1]}@{base[2]}", f"k={len(wire)} (uncut) {variant}: {base[1]}"
                 res.violations.append(bad)
             continue
         for k in cuts:
